@@ -1,8 +1,29 @@
 //! Kani harnesses on the real `serde_amqp` crate (path dependency on /repo).
-//! `complete` harnesses are loop-free over full-domain symbolic inputs (a proof for all values);
-//! `bounded` ones state their bound in vlib/props.py and are never counted as proved.
+//! The harness bodies live in /verif/kani/shared and are shared with the replay program, so a
+//! counterexample found here can be re-executed on the real code with the concrete values.
 #![allow(unused)]
+#[path = "../../shared/src_trait.rs"]
+pub mod src_trait;
+#[path = "../../shared/bodies_codec.rs"]
+pub mod bodies;
+
 #[cfg(kani)]
-mod prim;
-#[cfg(kani)]
-mod dec;
+mod harnesses {
+    use super::bodies;
+    use super::src_trait::KaniSrc;
+    macro_rules! h {
+        ($name:ident, $unwind:expr) => {
+            #[kani::proof]
+            #[kani::unwind($unwind)]
+            fn $name() { bodies::$name(&mut KaniSrc) }
+        };
+    }
+    h!(rt_u32, 12); h!(rt_u64, 12); h!(rt_i32, 12); h!(rt_i64, 12); h!(rt_u8, 12); h!(rt_i8, 12); h!(rt_u16, 12); h!(rt_i16, 12);
+    h!(rt_bool, 12); h!(rt_char, 12); h!(rt_f32, 12); h!(rt_f64, 12); h!(rt_unit, 12);
+    h!(dec_u32_variants, 12); h!(dec_u64_variants, 12); h!(dec_i32_variants, 12); h!(dec_i64_variants, 12); h!(dec_bool_variants, 12);
+    h!(total3_u32, 12); h!(total3_u64, 12); h!(total3_i32, 12); h!(total3_i64, 12); h!(total3_bool, 12); h!(total3_u8, 12); h!(total3_u16, 12); h!(total3_char, 12);
+    h!(total3_value, 26);
+    h!(hdr3_list8_vec, 8); h!(hdr3_list8_tuple, 8); h!(hdr3_map8, 8); h!(hdr3_array8, 24);
+    h!(total_list8_header_vec_u8, 10); h!(total_array8_header_vec_u8, 24); h!(total_map8_header, 10); h!(hdr_map8_one_key_no_value, 8);
+    h!(reader_agrees_u32, 12);
+}
